@@ -331,6 +331,19 @@ class Gen:
             self.emit('mov %s:%d(p1), %s' % (ty, off, self.int_src(regs)))
             self.emit('mov t9, %s:%d(p1)' % (ty, off))
             self.acc('t9')
+        # a second area: both are written at their first and last word, then the first one is read again (overlap shows)
+        n2 = r.choice([8, 16, 24, 40])
+        self.emit('mov i64:0(p1), %s' % r.choice(regs))
+        self.emit('mov i64:%d(p1), %s' % (n - 8, r.choice(regs)))
+        self.emit('alloca p0, %d' % n2)
+        self.emit('mov i64:0(p0), 1311768467463790320')
+        self.emit('mov i64:%d(p0), 81985529216486895' % (n2 - 8))
+        self.emit('mov t9, i64:0(p1)')
+        self.acc('t9')
+        self.emit('mov t9, i64:%d(p1)' % (n - 8))
+        self.acc('t9')
+        self.emit('mov t9, i64:%d(p0)' % (n2 - 8))
+        self.acc('t9')
         if scoped:
             self.emit('bend p2')
 
@@ -438,21 +451,21 @@ class Gen:
                 self.mem_block(regs)
             elif k < 0.68:
                 self.call_block(regs)
-            elif k < 0.78:
+            elif k < 0.76:
                 self.branch_block(regs, depth)
-            elif k < 0.84:
+            elif k < 0.80:
                 self.ovf_block(regs)
-            elif k < 0.88:
+            elif k < 0.83:
                 self.switch_block(regs)
-            elif k < 0.90:
+            elif k < 0.865:
                 self.alloca_block(regs)
-            elif k < 0.92:
+            elif k < 0.90:
                 self.addr_block(regs)
-            elif k < 0.935:
+            elif k < 0.92:
                 self.laddr_block(regs)
-            elif k < 0.955:
+            elif k < 0.95:
                 self.vararg_block(regs)
-            elif k < 0.965 and self.features.get('blk', BLK_ARGS):
+            elif k < 0.97 and self.features.get('blk', BLK_ARGS):
                 self.blk_block(regs)
             elif depth > 0:
                 self.loop_block(regs, depth)
